@@ -403,7 +403,11 @@ class DirWorld:
         for e in self.enum:
             events.append({"ev": "enum", "order": e})
         events.append({"ev": "touches", "names": collapse([t[0] for t in self.touches])})
-        events.append({"ev": "response", "status": status, "listing": items, "culprit": culprit})
+        # alpha: does the error reply name the DIRECTORY's own selector (the server refuses the directory itself,
+        # no child is involved)?  Observed from the log line of the reply.
+        dirsel = case["sb"] or "/"
+        selfref = status != "ok" and any(("'%s' does not exist" % dirsel) in ln for ln in r.log)
+        events.append({"ev": "response", "status": status, "listing": items, "culprit": culprit, "dirrefused": bool(selfref)})
         extra = {"raw": r.out[:500].decode("latin-1"), "log": r.log[-3:], "escaped": r.escaped, "touches": list(self.touches), "pre_touches": list(self.pre),
                  "fired": list(self.fired), "cause": cause, "culprit_label": kid_label(case, culprit) if culprit else ""}
         return events, extra
